@@ -133,6 +133,16 @@ CHECKS = {
             'uninterrupted run.',
             'Steps depend only on persisted state; checkpoints at state entry and right after construction; bounds M and '
             'families as reported in the evidence.', 'DESIGN.md 3 C08'),
+    'C16': (SCHED, SCHED_TECH + '; twin executions at quiescent delivery points; exhaustive broadcast-fault enumeration',
+            'A process attached to an in-process communicator (plain, and wrapped in LoopCommunicator) receives <=K RPC '
+            'pause/play/kill/status messages and their broadcast variants at every placement between loop callbacks: each '
+            'delivered message must become exactly one call of the matching control method with the matching arguments, the '
+            'reply must end with what that call returned, status replies equal what the process reported, every transition '
+            'is announced once, in order, by the pid, and a terminated process is unroutable. With choice points only at '
+            'quiescence every execution is repeated making the equivalent direct calls and all observations must be equal. '
+            'For every transition index and each tolerated exception type the failing broadcast must not disturb the run.',
+            'The communicator thread is modelled by loop callbacks landing at arbitrary queue positions; a real broker and '
+            'OS-thread races are outside the explored space.', 'DESIGN.md 3 C16'),
     'C17': ('history-bfs',
             'explicit-state breadth-first search over launcher task histories replayed on a real ProcessLauncher on the '
             'deterministic loop, for every persister / loader / delivery-path configuration',
